@@ -94,7 +94,10 @@ def ndef_state(nd):
         return 'none', None
     o = nd.octets
     return ('ndef %d %d %d %s' % (nd.is_readable, nd.is_writeable, nd.capacity, hexarg(o)),
-            {'length': nd.length, 'capacity': nd.capacity, 'octets': o, 'ndef': nd})
+            {'length': nd.length, 'capacity': nd.capacity, 'octets': o, 'ndef': nd,
+             # the object's internals now (a later has_changed overwrites them)
+             'off': getattr(nd, '_ndef_tlv_offset', None), 'skip': set(getattr(nd, '_skip_bytes', ())),
+             'limit': getattr(nd, '_nlen_size', 0) + nd.capacity, 'fid': bytes(getattr(nd, '_ndef_file', b''))})
 
 
 def read_twice(tag, clf):
@@ -244,7 +247,7 @@ def monitor_tlv(ck, kind, case, x, view, first, dend):
     if x['length'] > x['capacity'] or x['length'] != len(x['octets']):
         ck.violation(key + ':length>capacity', '%s: ndef.length %d exceeds ndef.capacity %d' % (kind, x['length'], x['capacity']), case)
         return
-    off, skip = nd._ndef_tlv_offset, nd._skip_bytes
+    off, skip = x['off'], x['skip']
     start, pos = tlv_positions(view, off, skip, len(x['octets']))
     ok = off >= first and start <= dend and all(p < dend for p in pos) and len(pos) == len(x['octets']) and \
         all(p < len(view) and view[p] == b for p, b in zip(pos, x['octets']))
@@ -485,7 +488,7 @@ def monitor_t3(ck, c, sim, o, clf):
 def run_t3(run, c, sim=None, kind='t3'):
     ck = run.ck
     sim = sim or mk_t3(c)
-    clf, tag, act = do_activate(sim, c['stop'], c['mode'])
+    clf, tag, act = do_activate(sim, c['stop'], c['mode'], limit=c.get('limit', LIMIT))
     sensf = bytes(sim.target().sensf_res)
 
     want_act = '%s idm=%s pmm=%s sys=%d' % (act, hexarg(tag.idm), hexarg(tag.pmm), tag.sys) if tag is not None else act
@@ -523,7 +526,8 @@ def run_t3(run, c, sim=None, kind='t3'):
             exp = o['r2'] == 'none' or o['r2'].split()[4] != o['r1'].split()[4]
             if o['changed'] != exp:
                 run.mismatch(kind + '-has_changed', c, o['changed'], exp)
-    run.model('t3sess %s %d %s' % (hexarg(idm0), sys0, script), chk)
+    if not c.get('nomodel'):
+        run.model('t3sess %s %d %s' % (hexarg(idm0), sys0, script), chk)
     ck.case((kind, json.dumps(c, sort_keys=True)), o['r1'] != 'none' or clf.ncmd > 3,
             {'kind': kind, 'attr': c.get('blocks', '')[:32], 'stop': c['stop'], 'class': act, 'ndef': o['r1'][:60], 'commands': o.get('n1')})
 
@@ -644,14 +648,14 @@ def run_t4(run, c, sim=None, kind='t4'):
             ck.violation(kind + ':unsound:length>capacity', '%s: ndef.length %d exceeds ndef.capacity %d' % (kind, x['length'], x['capacity']), c)
             continue
         nd = x['ndef']
-        limit = nd._nlen_size + nd._capacity      # = min(maximum file size, 65536)
+        limit = x['limit']      # nlen_size + capacity = min(maximum file size, 65536)
         sel, bad = None, False
         for apdu, r in log:
             if apdu[1] == 0xA4 and apdu[2] == 0:
                 sel = bytes(apdu[5:7])
-            if apdu[1] == 0xB0 and sel == bytes(nd._ndef_file) and r.startswith('ok:'):
+            if apdu[1] == 0xB0 and sel == x['fid'] and r.startswith('ok:'):
                 off = apdu[2] << 8 | apdu[3]
-                got = len(r) // 2 - 3 - 1 if False else (len(r) - 3) // 2 - 2
+                got = (len(r) - 3) // 2 - 2
                 if off + max(got, 0) > limit:
                     bad = True
         if bad:
@@ -870,9 +874,12 @@ def gen_t3(rng):
     ic = rng.choice([0xFF, 0xFF, 0xF0, 0xF1, 0xF2, 0x01, 0x20, 0x06, 0xE0, rng.getrandbits(8)])
     pmm = bytes([rng.getrandbits(8), ic]) + rb(rng, 6)
     idm = bytes([rng.choice([2, 3, 1]), rng.choice([0xFE, 0x10])]) + rb(rng, 6)
+    beyond = rng.choice(['status', 'status', 'zeros'])
+    if beyond == 'zeros' and min(ln, cap) // 16 // min(max(nbr, 1), 15) > 1500:
+        beyond = 'status'          # a bounded but very long read (up to 65535 commands): see the two corpus cases
     return {'kind': 't3', 'blocks': blocks.hex(), 'idm': idm.hex(), 'pmm': pmm.hex(), 'sensf': None,
             'sys_in_sensf': rng.random() < 0.6, 'max_read': rng.choice([15, 15, 15, 12, 4, 1, 255]),
-            'beyond': rng.choice(['status', 'status', 'zeros']), 'poll': rng.random() < 0.85, 'stop': None, 'mode': 'timeout'}
+            'beyond': beyond, 'poll': rng.random() < 0.85, 'stop': None, 'mode': 'timeout'}
 
 
 AID2 = 'd2760000850101'
@@ -987,6 +994,14 @@ CORPUS = [
 ]
 
 
+def t3_big(nbr, nmaxb=65535, limit=LIMIT):
+    """Ln = 16 * Nmaxb on a tag that answers every block; with Nmaxb = 65535 the longest read there is (1 MiB: the
+    monitor only, the extracted model's non-tail-recursive list functions do not take a message of that size)"""
+    return {'kind': 't3', 'blocks': t3_attr(0x10, nbr, 1, nmaxb, 0, 1, 16 * nmaxb).hex(), 'idm': '0102030405060708', 'pmm': 'ffffffffffffffff',
+            'sensf': None, 'sys_in_sensf': True, 'max_read': 15, 'beyond': 'zeros', 'poll': True, 'stop': None, 'mode': 'timeout', 'limit': limit,
+            'nomodel': nmaxb > 5000}
+
+
 def t4_file_case(cc, ndef, **kw):
     c = act_case_t4(ats='067577810280')
     c['files'] = {'e103': cc.hex(), 'e104': ndef.hex()}
@@ -1061,7 +1076,7 @@ def main():
         return min(clf.ncmd, 400)
 
     # ---- corpus first
-    for c in CORPUS:
+    for c in CORPUS + [t3_big(15, 4095), t3_big(15)] + ([] if quick else [t3_big(1, 65535, 200000)]):
         go(c)
         if c['kind'] in ('t1', 't2', 't3', 't4') and c.get('beyond') != 'zeros':
             for cs in with_stops(rng, c, ncmd_of(c), quick):
